@@ -12,6 +12,7 @@ import (
 	"github.com/formancehq/ledger/internal/bus"
 	"github.com/formancehq/ledger/internal/engine/utils/batching"
 	"github.com/formancehq/ledger/internal/machine/vm"
+	"github.com/formancehq/ledger/internal/verifhook"
 	"github.com/formancehq/stack/libs/go-libs/collectionutils"
 	"github.com/formancehq/stack/libs/go-libs/metadata"
 	"github.com/pkg/errors"
@@ -82,11 +83,13 @@ func (commander *Commander) exec(ctx context.Context, parameters Parameters, scr
 	execContext := newExecutionContext(commander, parameters)
 	return execContext.run(ctx, func(executionContext *executionContext) (*ledger.ChainedLog, chan struct{}, error) {
 		if script.Reference != "" {
+			verifhook.Yield(ctx, "ref-take")
 			if err := commander.referencer.take(referenceTxReference, script.Reference); err != nil {
 				return nil, nil, NewErrConflict()
 			}
 			defer commander.referencer.release(referenceTxReference, script.Reference)
 
+			verifhook.Yield(ctx, "ref-lookup")
 			_, err := commander.store.GetTransactionByReference(ctx, script.Reference)
 			if err == nil {
 				return nil, nil, NewErrConflict()
@@ -107,6 +110,7 @@ func (commander *Commander) exec(ctx context.Context, parameters Parameters, scr
 			return nil, nil, NewErrCompilationFailed(err)
 		}
 
+		verifhook.Yield(ctx, "resolve")
 		involvedAccounts, involvedSources, err := m.ResolveResources(ctx, commander.store)
 		if err != nil {
 			return nil, nil, NewErrCompilationFailed(err)
@@ -118,12 +122,14 @@ func (commander *Commander) exec(ctx context.Context, parameters Parameters, scr
 			Write: collectionutils.Filter(involvedSources, worldFilter),
 		}
 
+		verifhook.Yield(ctx, "lock")
 		unlock, err := commander.locker.Lock(ctx, lockAccounts)
 		if err != nil {
 			return nil, nil, errors.Wrap(err, "locking accounts for tx processing")
 		}
 		unlock(ctx)
 
+		verifhook.Yield(ctx, "read-balances")
 		err = m.ResolveBalances(ctx, commander.store)
 		if err != nil {
 			return nil, nil, errors.Wrap(err, "could not resolve balances")
@@ -138,6 +144,7 @@ func (commander *Commander) exec(ctx context.Context, parameters Parameters, scr
 			return nil, nil, NewErrNoPostings()
 		}
 
+		verifhook.Yield(ctx, "alloc-txid")
 		tx := ledger.NewTransaction().
 			WithPostings(result.Postings...).
 			WithMetadata(result.Metadata).
@@ -207,11 +214,13 @@ func (commander *Commander) SaveMeta(ctx context.Context, parameters Parameters,
 
 func (commander *Commander) RevertTransaction(ctx context.Context, parameters Parameters, id *big.Int, force bool) (*ledger.Transaction, error) {
 
+	verifhook.Yield(ctx, "revert-take")
 	if err := commander.referencer.take(referenceReverts, id); err != nil {
 		return nil, NewErrRevertTransactionOccurring()
 	}
 	defer commander.referencer.release(referenceReverts, id)
 
+	verifhook.Yield(ctx, "revert-lookup")
 	transactionToRevert, err := commander.store.GetTransaction(ctx, id)
 	if err != nil {
 		if storageerrors.IsNotFoundError(err) {
